@@ -35,6 +35,8 @@ def _extract(sess, sx, ir, input_names):
         if r.verdict == "CEX" and r.model:
             m = r.model["__model__"]
             cex = {"named": csxlib.model_inputs(sx, ir, m, input_names), "classes": csxlib.model_all_classes(sx, m)}
+            if getattr(sess, "copy_b", None) is not None:       # self-composition: the second witness copy
+                cex["classes_b"] = csxlib.model_all_classes(sess.copy_b, m)
         out.append((r.name, r.kind, r.verdict, r.secs, cex))
     return out
 
@@ -377,12 +379,14 @@ def c10(pid, tier):
                 spec = {"priv": lambda a: f"priv:{a[0]}", "pub": lambda a: f"pub:{a[0]}:{a[1]}", "gadget": lambda a: a[1].replace("_", ":")}[kind](args)
                 assigns = [{"label": "honest", "mode": "honest", "named": cex["named"]},
                            {"label": "adversarial-hints", "mode": "adversarial", "named": cex["named"], "classes": cex["classes"]}]
+                if cex.get("classes_b"):        # either copy of the two-witness model may be the one that differs from the honest run
+                    assigns.append({"label": "adversarial-hints (second witness)", "mode": "adversarial", "named": cex["named"], "classes": cex["classes_b"]})
                 rp = csxlib.replay(pid, spec, assigns)
                 path = csxlib.replay_path(pid)
                 json.dump({"query": name, "spec": spec, "assignments": assigns, "replay": rp}, open(path, "w"))
                 acc = [o for o in rp if o.get("accepted")]
-                ok = len(acc) == 2 and acc[0]["public_inputs"] != acc[1]["public_inputs"]
-                if not ok and len(acc) == 1 and rp[0].get("accepted") is False and rp[1].get("accepted"):
+                ok = len({tuple(o["public_inputs"]) for o in acc}) >= 2
+                if not ok and rp[0].get("accepted") is False and any(o.get("accepted") for o in rp[1:]):
                     ok = True   # honest witness fails, adversarial hints pass
                 replays[name] = (ok, path, name + "; " + ("two accepted proofs over the same inputs expose different public outputs" if ok
                                                           else "; ".join(str(o.get("detail")) for o in rp)))
